@@ -8,7 +8,7 @@
 (* Configurations (spec/mc/<name>/) choose the universe (module Universe), *)
 (* the request alphabet and the depth bound.                               *)
 (***************************************************************************)
-EXTENDS TraphImpl, TraphAbs, Queries, TLC
+EXTENDS TraphImpl, TraphAbs, Queries, TLC, Json
 
 CONSTANTS
   PageLrus,      \* LRUs submitted as pages
@@ -22,8 +22,11 @@ CONSTANTS
   ProbeLrus,     \* LRUs used to probe resolution / lookup (present or absent)
   MaxLevel       \* depth bound (number of requests + 1)
 
-VARIABLES st, abs, ram, ok, nreq
-vars == <<st, abs, ram, ok, nreq>>
+VARIABLES st, abs, ram, ok, nreq, hist
+vars == <<st, abs, ram, ok, nreq, hist>>
+(* hist records the requests made so far (for replaying behaviours into the real code);
+   it is hidden from the state identity by VIEW View, so it does not multiply states *)
+View == <<st, abs, ram, ok, nreq>>
 
 Clean(s) == [s EXCEPT !.wlog = <<>>]
 
@@ -34,45 +37,53 @@ Init ==
   /\ abs = AbsInstallRules(EmptyAbs, EmptyRam, DefRule, InitRules, 1)
   /\ ok  = TRUE
   /\ nreq = 0
+  /\ hist = <<>>
 
 Same(p, a) == p.exc = a.exc /\ p.pages = a.pages /\ p.created = a.created
 
 Step(p, a) == /\ st' = Clean(p.st) /\ abs' = a.A /\ ok' = Same(p, a)
+Log(e) == hist' = Append(hist, e)
 
 DoAddPage ==
   /\ "AddPage" \in Ops
   /\ \E l \in PageLrus, cr \in BOOLEAN :
        Step(AddPageReq(st, ram, DefRule, l, cr), AbsAddPage(abs, ram, DefRule, l, cr))
+       /\ Log([op |-> "AddPage", l |-> l, cr |-> cr])
   /\ UNCHANGED ram
 
 DoAddPages ==
   /\ "AddPages" \in Ops
   /\ \E l1 \in PageLrus, l2 \in PageLrus, cr \in BOOLEAN :
        Step(AddPagesReq(st, ram, DefRule, <<l1, l2>>, cr), AbsAddPages(abs, ram, DefRule, <<l1, l2>>, cr))
+       /\ Log([op |-> "AddPages", ls |-> <<l1, l2>>, cr |-> cr])
   /\ UNCHANGED ram
 
 DoAddLinks ==
   /\ "AddLinks" \in Ops
   /\ \E ps \in PairSeqs :
        Step(AddLinksReq(st, ram, DefRule, ps), AbsAddLinks(abs, ram, DefRule, ps))
+       /\ Log([op |-> "AddLinks", pairs |-> ps])
   /\ UNCHANGED ram
 
 DoCrawl ==
   /\ "IndexBatchCrawl" \in Ops
   /\ \E d \in CrawlBatches :
        Step(IndexBatchCrawlReq(st, ram, DefRule, d), AbsIndexBatchCrawl(abs, ram, DefRule, d))
+       /\ Log([op |-> "IndexBatchCrawl", data |-> d])
   /\ UNCHANGED ram
 
 DoCreateWe ==
   /\ "CreateWe" \in Ops
   /\ \E p \in PrefixLrus :
        Step(CreateWebentityReq(st, <<p>>), AbsCreateWe(abs, <<p>>))
+       /\ Log([op |-> "CreateWe", ps |-> <<p>>])
   /\ UNCHANGED ram
 
 DoCreateWe2 ==
   /\ "CreateWe2" \in Ops
   /\ \E p \in PrefixLrus, q \in PrefixLrus :
        Step(CreateWebentityReq(st, <<p, q>>), AbsCreateWe(abs, <<p, q>>))
+       /\ Log([op |-> "CreateWe", ps |-> <<p, q>>])
   /\ UNCHANGED ram
 
 DoDeleteWe ==
@@ -80,24 +91,28 @@ DoDeleteWe ==
   /\ \E w \in WeIds(abs) \cup {1} :
        \E ps \in { SetToSortedSeq(PrefixesOfWe(abs, w)) } \cup { <<p>> : p \in PrefixLrus } :
          Step(DeleteWebentityReq(st, w, ps), AbsDeleteWe(abs, w, ps))
+         /\ Log([op |-> "DeleteWe", id |-> w, ps |-> ps])
   /\ UNCHANGED ram
 
 DoAddPrefix ==
   /\ "AddPrefix" \in Ops
   /\ \E p \in PrefixLrus, w \in WeIds(abs) \cup {1} :
        Step(AddPrefixReq(st, p, w), AbsAddPrefix(abs, p, w))
+       /\ Log([op |-> "AddPrefix", p |-> p, id |-> w])
   /\ UNCHANGED ram
 
 DoRemovePrefix ==
   /\ "RemovePrefix" \in Ops
   /\ \E p \in PrefixLrus, w \in WeIds(abs) \cup {0} :
        Step(RemovePrefixReq(st, p, w), AbsRemovePrefix(abs, p, w))
+       /\ Log([op |-> "RemovePrefix", p |-> p, id |-> w])
   /\ UNCHANGED ram
 
 DoMovePrefix ==
   /\ "MovePrefix" \in Ops
   /\ \E p \in PrefixLrus, w \in WeIds(abs) \cup {1}, s \in WeIds(abs) \cup {0} :
        Step(MovePrefixReq(st, p, w, s), AbsMovePrefix(abs, p, w, s))
+       /\ Log([op |-> "MovePrefix", p |-> p, to |-> w, frm |-> s])
   /\ UNCHANGED ram
 
 DoAddRule ==
@@ -107,6 +122,7 @@ DoAddRule ==
            n == LruNode(st.trie, ar.anchor)
            order == IF n = 0 THEN <<>> ELSE PagesBeneath(st.trie, n, ar.anchor)
        IN /\ Step(r.res, AbsAddRule(abs, r.ram, DefRule, ar.anchor, TRUE, order))
+          /\ Log([op |-> "AddRule", anchor |-> ar.anchor, rule |-> ar.rule, wr |-> TRUE])
           /\ ram' = r.ram
           \* the witness order is a permutation of the abstract pages beneath the anchor
           /\ Assert(SeqToSet(order) = PagesUnder(abs, ar.anchor) /\ Len(order) = Cardinality(SeqToSet(order)),
@@ -117,6 +133,7 @@ DoRemoveRule ==
   /\ \E ar \in AnchorRules :
        LET r == RemoveRuleReq(st, ram, ar.anchor) IN
        /\ Step(r.res, AbsRemoveRule(abs, ram, ar.anchor))
+       /\ Log([op |-> "RemoveRule", anchor |-> ar.anchor])
        /\ ram' = r.ram
 
 Request ==
@@ -130,6 +147,11 @@ Spec == Init /\ [][Next]_vars
 (* n counts requests; it is part of the state so that the bound is exact and the
    explored set deterministic under parallel BFS (level labels are not) *)
 Bound == nreq <= MaxLevel - 1
+
+(* behaviour export: every distinct state prints the (shortest) history that reached it;
+   in simulation mode, every behaviour prints its history when it reaches the bound *)
+EmitAll  == PrintT(<<"BEHAVIOUR", ToJson([h |-> hist])>>)
+EmitFull == nreq = MaxLevel - 1 => PrintT(<<"BEHAVIOUR", ToJson([h |-> hist])>>)
 
 (***************************************************************************)
 (* Invariants                                                              *)
@@ -204,6 +226,101 @@ SumBlocksMC(K) ==
 Accounting ==
   /\ Len(st.trie) = SumBlocksMC(abs.known)
   /\ Len(st.ls) = 2 * SumW(abs.links)
+
+(***************************************************************************)
+(* The query algorithms compute the declarative answers (C05 C07 C08 C09    *)
+(* C10 C13 C20), in every reachable state, every webentity, every switch.   *)
+(***************************************************************************)
+PsOf(w) == SetToSortedSeq(PrefixesOfWe(abs, w))
+RevPs(w) == LET p == PsOf(w) IN [i \in 1..Len(p) |-> p[Len(p) + 1 - i]]
+
+WePagesInv ==        \* C05
+  \A w \in WeIds(abs) :
+    LET got == ConcatWeDfs(st.trie, PsOf(w), 1) IN
+    /\ SeqToSet(got) = WePages(abs, w)
+    /\ Len(got) = Cardinality(WePages(abs, w))
+    /\ SeqToSet(ConcatWeDfs(st.trie, RevPs(w), 1)) = WePages(abs, w)
+
+NetworkInv ==        \* C07
+  \A auto \in BOOLEAN :
+    /\ NetFast(st.trie, st.ls, TRUE, auto) = AbsNetwork(abs, auto)
+    /\ NetSlow(st.trie, st.ls, TRUE, auto) = AbsNetwork(abs, auto)
+    /\ NetFast(st.trie, st.ls, FALSE, auto) = Transpose(AbsNetwork(abs, auto))
+    /\ NetSlow(st.trie, st.ls, FALSE, auto) = Transpose(AbsNetwork(abs, auto))
+
+WeLinksInv ==        \* C08
+  \A w \in WeIds(abs) : \A inb \in BOOLEAN, internal \in BOOLEAN, outb \in BOOLEAN :
+    (inb \/ internal \/ outb) =>
+      WeLinksBlocks(st.trie, st.ls, w, PsOf(w), inb, internal, outb) = AbsWeLinks(abs, w, inb, internal, outb)
+
+HierarchyInv ==      \* C13
+  \A w \in WeIds(abs) :
+    /\ ChildrenBlocks(st.trie, w, PsOf(w)) = Children(abs, w)
+    /\ ParentsBlocks(st.trie, w, PsOf(w)) = Parents(abs, w)
+
+(* C09: paging with every page size, feeding each token back *)
+RECURSIVE PageThrough(_, _, _, _, _, _, _, _)
+PageThrough(tr, ps, k, co, hasTok, ti, tpath, fuel) ==   \* sequence of answers
+  IF fuel = 0 THEN <<>>
+  ELSE LET r == PagPages(tr, ps, k, ti, hasTok, tpath, co) IN
+       IF r.done THEN <<r>> ELSE <<r>> \o PageThrough(tr, ps, k, co, TRUE, r.ti, r.tpath, fuel - 1)
+RECURSIVE Flatten(_)
+Flatten(ans) == IF ans = <<>> THEN <<>> ELSE ans[1].pages \o Flatten(Tail(ans))
+RECURSIVE ByPrefix(_, _, _)
+ByPrefix(w, ps, i) ==    \* the pages of w, prefix by prefix, ascending within a prefix
+  IF i > Len(ps) THEN <<>>
+  ELSE LET own == { p \in WePages(abs, w) : IsPrefixOf(ps[i], p) /\
+                     \A q \in SeqToSet(ps) : IsPrefixOf(q, p) => Len(q) <= Len(ps[i]) }
+       IN SortedSeq(own) \o ByPrefix(w, ps, i + 1)
+PaginationInv ==
+  \A w \in WeIds(abs) : \A co \in BOOLEAN :
+    LET ps == PsOf(w)
+        want == SelectSeq(ByPrefix(w, ps, 1), LAMBDA p : ~co \/ p \in abs.crawled)
+        n == Len(want)
+    IN \A k \in 1..(n + 1) :
+         LET ans == PageThrough(st.trie, ps, k, co, FALSE, 0, <<>>, n + 2)
+             flat == Flatten(ans)
+         IN /\ [j \in 1..Len(flat) |-> flat[j].l] = want
+            /\ ans[Len(ans)].done
+            /\ \A j \in 1..(Len(ans) - 1) : ~ans[j].done /\ Len(ans[j].pages) = k
+            /\ \A j \in 1..Len(flat) : flat[j].cr = (flat[j].l \in abs.crawled)
+
+(* C10 *)
+RECURSIVE LinkThrough(_, _, _, _, _, _, _, _, _, _)
+LinkThrough(tr, ls, ps, w, internal, outb, k, hasTok, tok, fuel) ==
+  IF fuel = 0 THEN <<>>
+  ELSE LET r == PagLinks(tr, ls, ps, w, internal, outb, k, tok[1], hasTok, tok[2]) IN
+       IF r.done \/ r.tnone THEN <<r>>
+       ELSE <<r>> \o LinkThrough(tr, ls, ps, w, internal, outb, k, TRUE, <<r.ti, r.tpath>>, fuel - 1)
+RECURSIVE FlattenLinks(_)
+FlattenLinks(ans) == IF ans = <<>> THEN <<>> ELSE ans[1].links \o FlattenLinks(Tail(ans))
+PagLinksInv ==
+  \A w \in WeIds(abs) : \A io \in { <<TRUE, FALSE>>, <<TRUE, TRUE>>, <<FALSE, TRUE>> } :
+    LET ps == PsOf(w)
+        full == AbsWeLinks(abs, w, FALSE, io[1], io[2])
+        nsrc == Cardinality({ e[1] : e \in full })
+    IN \A k \in 1..(nsrc + 1) :
+         LET ans == LinkThrough(st.trie, st.ls, ps, w, io[1], io[2], k, FALSE, <<0, <<>>>>, nsrc + 2)
+             flat == FlattenLinks(ans)
+         IN /\ SeqToSet(flat) = full
+            /\ Len(flat) = Cardinality(full)
+            /\ ans[Len(ans)].done
+            /\ \A j \in 1..(Len(ans) - 1) : ~ans[j].done /\ ~ans[j].tnone /\ ans[j].n = k
+
+(* C20 (with the known finding: a page nobody links to counts 1) *)
+TopInv ==
+  \A w \in WeIds(abs) : \A k \in 1..3 : \A depth \in {Unlimited, 0, 1} :
+    LET ps == PsOf(w)
+        top == TopBlocks(st.trie, st.ls, ps, k, depth)
+        Eff(p) == IF InDegree(abs, p) = 0 THEN 1 ELSE InDegree(abs, p)
+        Own(p) == CHOOSE q \in SeqToSet(ps) : IsPrefixOf(q, p) /\ \A q2 \in SeqToSet(ps) : IsPrefixOf(q2, p) => Len(q2) <= Len(q)
+        cands == { p \in WePages(abs, w) : depth = Unlimited \/ Len(p) - Len(Own(p)) <= depth }
+        listed == { top[j].l : j \in 1..Len(top) }
+    IN /\ listed \subseteq cands /\ Len(top) = Cardinality(listed)
+       /\ Len(top) = Min(k, Cardinality(cands))
+       /\ \A j \in 1..Len(top) : top[j].n = Eff(top[j].l)
+       /\ \A j \in 1..(Len(top) - 1) : top[j].n >= top[j + 1].n
+       /\ \A p \in cands \ listed : \A j \in 1..Len(top) : Eff(p) <= top[j].n
 
 (* action property: re-submitting known things allocates nothing (C19),     *)
 (* blocks never move or disappear, ids only grow (C12)                      *)
